@@ -215,6 +215,19 @@ def axiom_allowed(ax, allow_primitives):
 # ----------------------------------------------------------------------------------------------
 # The check object
 # ----------------------------------------------------------------------------------------------
+MAX_SHARD_BYTES = 1500000
+
+
+def _big_stack():
+    """coqc parses the case literals recursively: give it all the stack the hard limit allows"""
+    import resource
+    try:
+        soft, hard = resource.getrlimit(resource.RLIMIT_STACK)
+        resource.setrlimit(resource.RLIMIT_STACK, (hard, hard))
+    except Exception:
+        pass
+
+
 class Check:
     def __init__(self, pid, tier, seed, allow_primitives=False):
         self.pid = pid
@@ -222,7 +235,8 @@ class Check:
         self.seed = seed
         self.rng = random.Random(f'{pid}:{seed}')
         self.t0 = time.time()
-        self.work = WORK / pid
+        # one scratch directory per property and tier; a run against another tree (VERIF_REPO) gets its own
+        self.work = WORK / (pid + ('t' if tier == 'thorough' else '') + ('' if str(REPO) == '/repo' else '-' + re.sub(r'\W+', '_', str(REPO))[-40:]))
         if self.work.exists():
             shutil.rmtree(self.work)
         self.work.mkdir(parents=True)
@@ -360,12 +374,19 @@ class Check:
         if not cases:
             return []
         files = []
-        for k in range(0, len(cases), shard):
-            f = self.work / f'{tag}_{k // shard:04d}.v'
-            body = [header, 'Definition cases := [', ';\n'.join(cases[k:k + shard]), '].',
+        # shards are bounded by case count AND by text size (a multi-MB literal overflows coqc's stack)
+        k, n_file = 0, 0
+        while k < len(cases):
+            size, j = 0, k
+            while j < len(cases) and j - k < shard and (j == k or size + len(cases[j]) < MAX_SHARD_BYTES):
+                size += len(cases[j])
+                j += 1
+            f = self.work / f'{tag}_{n_file:04d}.v'
+            body = [header, 'Definition cases := [', ';\n'.join(cases[k:j]), '].',
                     f'Eval vm_compute in (failing {check_fn} cases).']
             f.write_text('\n'.join(body) + '\n')
-            files.append((k, f))
+            files.append((k, j - k, f))
+            k, n_file = j, n_file + 1
         procs = []
         failing = []
         pending = list(files)
@@ -373,12 +394,13 @@ class Check:
         errors = []
         while pending or running:
             while pending and len(running) < NCPU:
-                k, f = pending.pop(0)
+                k, cnt, f = pending.pop(0)
                 p = subprocess.Popen(['timeout', str(timeout), 'coqc', '-noglob', '-Q', str(THEORIES), 'Hpotk',
                                       '-w', '-notation-overridden', f.name],
-                                     cwd=str(self.work), stdout=subprocess.PIPE, stderr=subprocess.PIPE, text=True)
-                running.append((k, f, p))
-            k, f, p = running.pop(0)
+                                     cwd=str(self.work), stdout=subprocess.PIPE, stderr=subprocess.PIPE, text=True,
+                                     preexec_fn=_big_stack)
+                running.append((k, cnt, f, p))
+            k, cnt, f, p = running.pop(0)
             out, err = p.communicate()
             self._drop_compiled(f)
             if p.returncode != 0:
@@ -389,7 +411,7 @@ class Check:
                 errors.append(f'{f.name}: cannot parse: {out[-500:]}')
                 continue
             n = int(m.group(1))
-            expected = min(shard, len(cases) - k)
+            expected = cnt
             if n != expected:
                 errors.append(f'{f.name}: evaluated {n} cases, expected {expected}')
             idx = [int(x) for x in re.findall(r'\d+', m.group(2))]
